@@ -46,10 +46,10 @@ EXTENDS Integers, Sequences, FiniteSets, TLC, Emit, Cyc2
 CONSTANTS Configs,   \* set of <<N, cp, u>> for which pipeline cases are generated
           MapFfts,   \* set of fft sizes whose index map is checked alone (for every even u <= N)
           ParamFfts, \* set of fft sizes for which parameter validation is checked (cp -1..N+1, u 0..N+2)
-          LenMode,   \* "two" | "three" | "all" : data lengths {u-1, 2u+1} | + 2u | 1..2u+1
+          LenMode,   \* "one" | "two" | "three" | "all" : data lengths {2u+1} | {u-1, 2u+1} | + 2u | 1..2u+1
           PatMode,   \* "dense" | "basis"       : + all unit patterns at the longest length
           NDense,    \* number of pseudo-random dense data patterns per length
-          LayMode,   \* "none" | "three" | "basis" | "all3" : tap layouts per configuration
+          LayMode,   \* "none" | "one" | "three" | "basis" | "all3" : tap layouts per configuration
           Block,     \* BOOLEAN: also block-static channels (taps of OFDM symbol s multiplied by i^s)
           Seed,      \* seeds the in-spec LCG
           Dev        \* [flag |-> BOOLEAN]
@@ -114,7 +114,8 @@ KeyOf(c, L) == ((((c[1] * 17 + c[2]) * 17 + c[3]) * 40) + L) % 9973
 Rnd(k, i)   == LcgIter(LcgStart(Seed, k), i)
 
 Lengths(u) == IF LenMode = "all" THEN 1..(2 * u + 1)
-              ELSE IF LenMode = "three" THEN {u - 1, 2 * u, 2 * u + 1} ELSE {u - 1, 2 * u + 1}
+              ELSE IF LenMode = "three" THEN {u - 1, 2 * u, 2 * u + 1}
+              ELSE IF LenMode = "one" THEN {2 * u + 1} ELSE {u - 1, 2 * u + 1}
 Patterns(u, L) == {<<"dense", s, 0>> : s \in 0..(NDense - 1)}
                   \cup (IF PatMode = "basis" /\ L = 2 * u + 1
                           THEN {<<"unit", j, v>> : j \in 1..L, v \in 1..2} ELSE {})
@@ -134,7 +135,7 @@ ThreeLayouts(c, k) ==
         d1 == IF cp = 0 THEN 0 ELSE 1 + (Rnd(k, 8) % cp)
         C == IF d1 < cp THEN << <<d1, TV(k, 9)>>, <<d1 + 1 + (Rnd(k, 10) % (cp - d1)), TV(k, 11)>> >>
              ELSE << <<d1, TV(k, 12)>> >>
-    IN  {A, B, C}
+    IN  IF LayMode = "one" THEN {A} ELSE {A, B, C}
 BasisLayouts(c) == {<< <<d, v>> >> : d \in 0..c[2], v \in {<<1, 0>>, <<0, 1>>}}
 All3Layouts(c, k) ==
     LET D == 0..c[2]
@@ -144,7 +145,7 @@ All3Layouts(c, k) ==
         \cup {<< <<p[1], val(p[1], 4)>>, <<p[2], val(p[2], 5)>>, <<p[3], val(p[3], 6)>> >> :
                  p \in {p \in D \X D \X D : p[1] < p[2] /\ p[2] < p[3]}}
 RawLayouts(c, k) == IF LayMode = "none" THEN {}
-                    ELSE IF LayMode = "three" THEN ThreeLayouts(c, k)
+                    ELSE IF LayMode \in {"one", "three"} THEN ThreeLayouts(c, k)
                     ELSE IF LayMode = "basis" THEN ThreeLayouts(c, k) \cup BasisLayouts(c)
                     ELSE All3Layouts(c, k) \cup ThreeLayouts(c, k)
 
